@@ -696,6 +696,41 @@ func kindOf(typ byte, name string) string {
 	return "KBad"
 }
 
+func kindByType(typ byte) string {
+	switch typ {
+	case tar.TypeReg, 0:
+		return "KReg"
+	case tar.TypeLink, tar.TypeSymlink, tar.TypeDir, tar.TypeChar, tar.TypeBlock, tar.TypeFifo:
+		return "KMeta"
+	}
+	return "KBad"
+}
+
+func coqStr(s string) string { return "\"" + strings.ReplaceAll(s, "\"", "\"\"") + "\"%string" }
+
+// simplePrio reports whether every prioritized path is either absent from the tar or a top-level path whose
+// surviving entry is not a hardlink: then sortEntries moves exactly the listed entries and the harness's own
+// replica [processed] predicts the exact order.  Otherwise (nested paths pull their parent directories, hardlinks
+// pull their targets) the order is left to the Coq model (Model/Sort.v composed in Model/EsgzBuild.v) and the
+// model-free oracle checks the entry SET (last duplicate by cleaned name wins, one landmark).
+func simplePrio(c Case, in []tarEnt) bool {
+	last := map[string]byte{}
+	for _, e := range in {
+		last[cleanName(e.name)] = e.typ
+	}
+	for _, pn := range c.Prio {
+		cn := cleanName(pn)
+		t, ok := last[cn]
+		if !ok {
+			continue
+		}
+		if cn == "" || strings.Contains(cn, "/") || t == tar.TypeLink {
+			return false
+		}
+	}
+	return true
+}
+
 // processed returns the entry sequence handed to appendTar: the input order for the Writer; for Build the
 // order produced by sortEntries (importTar: landmarks dropped, a later duplicate replaces the earlier one and
 // moves to the end; prioritized top-level names first, then the landmark, then the rest).  The generator
@@ -796,6 +831,13 @@ func exec(c Case) (o outcome) {
 		panic("generator produced an unreadable tar: " + err.Error())
 	}
 	seq, prioNotFound := processed(c, inView)
+	general := c.Mode == "build" && !simplePrio(c, inView)
+	if general {
+		count("prio.general")
+		c2 := c
+		c2.Prio = nil
+		seq, prioNotFound = processed(c2, inView) // survivors only; the order is rebuilt from the output below
+	}
 	{
 		type grp struct {
 			n     int
@@ -870,7 +912,12 @@ func exec(c Case) (o outcome) {
 	if c.InComp == "zstd" && c.Mode != "build" {
 		expectErr = true // AppendTar accepts plain or gzip input only
 	}
-	if expectErr != !res.ok {
+	if general {
+		// whether a nested / hardlinked prioritized path is "not found" is decided by the model (C14's sortEntries)
+		if expectErr && res.ok {
+			bad("unexpected result: ok=%v, expected error=%v", res.ok, expectErr)
+		}
+	} else if expectErr != !res.ok {
 		bad("unexpected result: ok=%v (%s), expected error=%v", res.ok, res.errText, expectErr)
 	}
 
@@ -895,6 +942,51 @@ func exec(c Case) (o outcome) {
 		return hx.CoqList(s)
 	}
 
+	// Build from the raw tar: the composed model (sortEntries + writers) gets the input entries themselves
+	tarTerm := func() string {
+		es := make([]string, len(inView))
+		for i, e := range inView {
+			l := "None"
+			if e.typ == tar.TypeLink {
+				l = "(Some " + coqStr(e.h.Linkname) + ")"
+			}
+			es[i] = fmt.Sprintf("S.mkE %d %s %s", i, coqStr(e.name), l)
+		}
+		return hx.CoqList(es)
+	}
+	prioTerm := func() string {
+		ps := make([]string, len(c.Prio))
+		for i, pn := range c.Prio {
+			ps[i] = coqStr(pn)
+		}
+		return hx.CoqList(ps)
+	}
+	attrTerm := func(hl map[int]int64) string {
+		as := make([]string, len(inView))
+		for i, e := range inView {
+			h, ok := hl[i]
+			if !ok {
+				h = 512
+			}
+			as[i] = fmt.Sprintf("(%s, %d, %d)", kindByType(e.typ), e.size, h)
+		}
+		return hx.CoqList(as)
+	}
+	if !res.ok && c.Mode == "build" {
+		count("result.error")
+		var need int64 = 8
+		for _, e := range inView {
+			need += nChunks(e.size, c.Chunk) + 1
+		}
+		ones := make([]int64, need)
+		for i := range ones {
+			ones[i] = 1
+		}
+		o.coq = fmt.Sprintf("CB (mkBCase %s (%d)%%Z (%d)%%Z %d %s %s %s %s 512 %s %s 0 0 false [] [] 0 0)", fmtTerm, c.Chunk, c.MinChunk, workers,
+			tarTerm(), attrTerm(nil), prioTerm(), hx.CoqBool(c.Allow), nlist(ones), nlist(ones))
+		o.key = o.coq
+		return
+	}
 	if !res.ok {
 		count("result.error")
 		// the model must also fail; oracle values are irrelevant but must not run out
@@ -912,7 +1004,7 @@ func exec(c Case) (o outcome) {
 		for i := range ones {
 			ones[i] = 1
 		}
-		o.coq = fmt.Sprintf("mkCase %s %s (%d)%%Z (%d)%%Z %s 0 %s %s 0 0 false [] [] 0 0", modeTerm, fmtTerm, c.Chunk, c.MinChunk,
+		o.coq = fmt.Sprintf("CW (mkCase %s %s (%d)%%Z (%d)%%Z %s 0 %s %s 0 0 false [] [] 0 0)", modeTerm, fmtTerm, c.Chunk, c.MinChunk,
 			hx.CoqList(ents), nlist(ones), nlist(ones))
 		o.key = o.coq
 		return
@@ -929,7 +1021,7 @@ func exec(c Case) (o outcome) {
 	}
 	if err != nil {
 		bad("output is not a valid %s stream: %v", c.Fmt, err)
-		o.coq = "mkCase MWriter FGzip 0%Z 0%Z [] 0 [] [] 0 0 false [] [] 0 0"
+		o.coq = "CW (mkCase MWriter FGzip 0%Z 0%Z [] 0 [] [] 0 0 false [] [] 0 0)"
 		return
 	}
 	full, err := decompressAll(c.Fmt, blob)
@@ -1057,6 +1149,47 @@ func exec(c Case) (o outcome) {
 	}
 
 	// ---- (3) clause: full decompression is a tar with exactly the expected entries ----
+	outView, err := readTar(full)
+	if err != nil {
+		bad("decompressed output is not a readable tar: %v", err)
+	}
+	if general {
+		// entry SET: every output entry is the landmark or the surviving (last, by cleaned name) input entry of its
+		// path, each exactly once; the order itself is checked against the composed Coq model
+		lmName := prefetchLM
+		outs := outView
+		if c.Fmt == "gzip" && len(outs) > 0 && outs[len(outs)-1].name == tocName {
+			outs = outs[:len(outs)-1]
+		}
+		used := map[int]bool{}
+		var seq2 []procEnt
+		for _, oe := range outs {
+			if oe.name == lmName || oe.name == noPrefetchLM {
+				if oe.name != lmName {
+					bad("prioritized files given but the landmark is %q", oe.name)
+				}
+				seq2 = append(seq2, procEnt{src: -1, name: oe.name, kind: "KReg", size: 1, open: true, lm: true})
+				continue
+			}
+			found := false
+			for qi, q := range seq {
+				if q.src >= 0 && q.kind != "KToc" && !used[qi] && cleanName(q.name) == cleanName(oe.name) {
+					used[qi], found = true, true
+					seq2 = append(seq2, q)
+					break
+				}
+			}
+			if !found {
+				bad("output entry %q is not the surviving input entry of its path (superseded, dropped or invented)", oe.name)
+			}
+		}
+		for qi, q := range seq {
+			if q.src >= 0 && q.kind != "KToc" && !used[qi] {
+				bad("input entry %q (last of its path) is missing from the output", q.name)
+			}
+		}
+		seq = seq2
+	}
 	var expect []tarEnt
 	for _, p := range seq {
 		if p.kind == "KToc" {
@@ -1068,10 +1201,6 @@ func exec(c Case) (o outcome) {
 		} else {
 			expect = append(expect, inView[p.src])
 		}
-	}
-	outView, err := readTar(full)
-	if err != nil {
-		bad("decompressed output is not a readable tar: %v", err)
 	}
 	wantN := len(expect)
 	if c.Fmt == "gzip" && c.Mode != "lossless" {
@@ -1310,6 +1439,80 @@ func exec(c Case) (o outcome) {
 		}
 	}
 
+	// ---- (8) the repository's own reader accepts, verifies and reads the blob (estargz.Open / VerifyTOC) ----
+	hasLink := false
+	nameCount := map[string]int{}
+	for _, e := range expect {
+		if e.typ == tar.TypeLink {
+			hasLink = true
+		}
+		nameCount[cleanName(e.name)]++
+	}
+	if rd, oerr := estargz.Open(io.NewSectionReader(bytes.NewReader(blob), 0, int64(len(blob))), estargz.WithDecompressors(decompressorFor(c, res))); oerr != nil {
+		if hasLink {
+			count("open.skipped") // a dangling / directory hardlink of the INPUT is refused by Open: not a defect of the blob
+		} else {
+			bad("estargz.Open fails on the built blob: %v", oerr)
+		}
+	} else {
+		count("open.checked")
+		td, _ := digest.Parse(res.tocDigest)
+		ev, verr := rd.VerifyTOC(td)
+		if verr != nil {
+			bad("estargz.Reader.VerifyTOC rejects the built blob: %v", verr)
+		}
+		for _, e := range expect {
+			cn := cleanName(e.name)
+			if (e.typ != tar.TypeReg && e.typ != 0) || nameCount[cn] != 1 || cn == "" {
+				continue
+			}
+			te, ok := rd.Lookup(e.name)
+			if !ok || te.Type != "reg" {
+				if !hasLink {
+					bad("estargz.Reader.Lookup(%q) does not find the regular file", e.name)
+				}
+				continue
+			}
+			sr, ferr := rd.OpenFile(e.name)
+			if ferr != nil {
+				bad("estargz.Reader.OpenFile(%q): %v", e.name, ferr)
+				continue
+			}
+			got, rerr := io.ReadAll(io.NewSectionReader(sr, 0, int64(len(e.content))))
+			if rerr != nil || !bytes.Equal(got, e.content) {
+				bad("estargz.Reader reads %d bytes of %q (%v), the input has %d", len(got), e.name, rerr, len(e.content))
+			}
+			if ev == nil {
+				continue
+			}
+			for off := int64(0); off < int64(len(e.content)); {
+				ce, ok := rd.ChunkEntryForOffset(e.name, off)
+				if !ok {
+					bad("estargz.Reader has no chunk of %q for offset %d", e.name, off)
+					break
+				}
+				n := ce.ChunkSize
+				if n == 0 {
+					n = int64(len(e.content)) - ce.ChunkOffset
+				}
+				v, cerr := ev.Verifier(ce)
+				if cerr != nil {
+					bad("no verifier for the chunk of %q at %d: %v", e.name, off, cerr)
+					break
+				}
+				if ce.ChunkOffset+n > int64(len(e.content)) || n <= 0 {
+					bad("chunk of %q at %d has range [%d,+%d) outside the file", e.name, off, ce.ChunkOffset, n)
+					break
+				}
+				v.Write(e.content[ce.ChunkOffset : ce.ChunkOffset+n])
+				if !v.Verified() {
+					bad("the verifier of the chunk of %q at %d rejects the chunk's bytes", e.name, off)
+				}
+				off = ce.ChunkOffset + n
+			}
+		}
+	}
+
 	// ---- oracle values for the model ----
 	walk, rest, werr := tarWalk(payload)
 	if werr != nil {
@@ -1362,8 +1565,40 @@ func exec(c Case) (o outcome) {
 	for i, x := range footer {
 		fb[i] = fmt.Sprintf("%d", x)
 	}
-	o.coq = fmt.Sprintf("mkCase %s %s (%d)%%Z (%d)%%Z %s %d %s %s %d %d true %s %s %d %d", modeTerm, fmtTerm, c.Chunk, c.MinChunk,
-		hx.CoqList(ents), tlen, nlist(cs), nlist(fs), len(tocBytes), tocC, hx.CoqList(tocs), hx.CoqList(fb), len(blob), len(full))
+	if c.Mode == "build" {
+		// ids of the composed model: position in the input tar; the landmark gets the first unused id
+		hl := map[int]int64{}
+		lmh := int64(512)
+		wj := 0
+		for _, p := range seq {
+			if p.kind == "KToc" {
+				continue
+			}
+			if wj < len(walk) {
+				if p.src < 0 {
+					lmh = walk[wj].hlen
+				} else {
+					hl[p.src] = walk[wj].hlen
+				}
+			}
+			wj++
+		}
+		idOf := func(seqIdx int) int {
+			if seqIdx < len(seq) && seq[seqIdx].src >= 0 {
+				return seq[seqIdx].src
+			}
+			return len(inView)
+		}
+		for i, t := range tts {
+			tocs[i] = fmt.Sprintf("mkT %d %s %d %d %d %d %d", idOf(t.id), t.typ, t.size, t.off, t.inner, t.coff, t.csizeFld)
+		}
+		o.coq = fmt.Sprintf("CB (mkBCase %s (%d)%%Z (%d)%%Z %d %s %s %s %s %d %s %s %d %d true %s %s %d %d)", fmtTerm, c.Chunk, c.MinChunk, workers,
+			tarTerm(), attrTerm(hl), prioTerm(), hx.CoqBool(c.Allow), lmh, nlist(cs), nlist(fs), len(tocBytes), tocC,
+			hx.CoqList(tocs), hx.CoqList(fb), len(blob), len(full))
+	} else {
+		o.coq = fmt.Sprintf("CW (mkCase %s %s (%d)%%Z (%d)%%Z %s %d %s %s %d %d true %s %s %d %d)", modeTerm, fmtTerm, c.Chunk, c.MinChunk,
+			hx.CoqList(ents), tlen, nlist(cs), nlist(fs), len(tocBytes), tocC, hx.CoqList(tocs), hx.CoqList(fb), len(blob), len(full))
+	}
 	o.key = o.coq
 	nchunk := 0
 	for _, t := range tts {
@@ -1592,7 +1827,26 @@ func gen(r *hx.Rng) Case {
 			}
 		}
 	}
-	if c.Mode == "build" && len(top) > 0 && r.Chance(2, 5) {
+	if c.Mode == "build" && r.Chance(1, 4) {
+		// general prioritized list: any path of the tar (nested: parents are pulled; hardlinks: targets are pulled),
+		// in any spelling
+		var all []string
+		seen := map[string]bool{}
+		for _, e := range c.Ops {
+			cn := cleanName(e.Name)
+			if cn != "" && !seen[cn] && e.Type != "xglobal" && cn != tocName && cn != prefetchLM && cn != noPrefetchLM {
+				seen[cn] = true
+				all = append(all, cn)
+			}
+		}
+		for k := r.Range(1, 3); k > 0 && len(all) > 0; k-- {
+			c.Prio = append(c.Prio, spell(r, all[r.Intn(len(all))], r.Chance(1, 4)))
+		}
+		if r.Chance(1, 6) {
+			c.Prio = append(c.Prio, "dir/missing")
+		}
+		c.Allow = r.Chance(1, 2)
+	} else if c.Mode == "build" && len(top) > 0 && r.Chance(2, 5) {
 		k := r.Range(1, 2)
 		for i := 0; i < k; i++ {
 			c.Prio = append(c.Prio, spell(r, top[r.Intn(len(top))], r.Chance(1, 4)))
